@@ -47,9 +47,16 @@ def worlds(tier):
     W.append(("paxos-live-1proposer-n3", "paxos", dict(n=3, proposers=(0,), max_retries=0, live=True), 50_000))
     W.append(("paxos-live-1proposer-n3-late-id", "paxos", dict(n=3, proposers=(2,), max_retries=0, live=True), 50_000))
     # two competing proposers, one link never delivers (partition of one pair), learners included
-    for nm, cut in (("ac", AC), ("bc", BC), ("ab", AB)):
+    for nm, cut in (("ac", AC), ("bc", BC)):
         W.append((f"paxos-2prop-cut-{nm}", "paxos",
                   dict(n=3, proposers=(0, 1), max_retries=0, max_ballot=3, cut=cut), 150_000))
+    # the two proposers cannot talk to each other, both reach acceptor c; retries after nacks
+    W.append(("paxos-2prop-retries-cut-ab", "paxos",
+              dict(n=3, proposers=(0, 1), max_retries=1 if q else 2, max_ballot=3 if q else 4, cut=AB), 300_000))
+    # even cluster size: 4 nodes, a reaches b,c and b reaches a,d
+    W.append(("paxos-2prop-n4-two-cuts", "paxos",
+              dict(n=4, proposers=(0, 1), max_retries=0, max_ballot=2, mute=MUTE_D,
+                   cut=(("a", "d"), ("d", "a"), ("b", "c"), ("c", "b")), max_moves=11 if q else 15), 600_000))
     # two competing proposers + one retry after a nack, Decided broadcasts never delivered
     for nm, cut in (("ac", AC), ("bc", BC)):
         W.append((f"paxos-2prop-retry1-cut-{nm}", "paxos",
@@ -73,9 +80,6 @@ def worlds(tier):
         W.append(("paxos-double-proposal-one-node", "paxos",
                   dict(n=3, proposers=(0,), double=True, max_retries=1, max_ballot=4, max_moves=12), 600_000))
         W.append(("paxos-live-1proposer-n4", "paxos", dict(n=4, proposers=(1,), max_retries=0, live=True), 600_000))
-        W.append(("paxos-2prop-n4-two-cuts", "paxos",
-                  dict(n=4, proposers=(0, 1), max_retries=0, max_ballot=2, mute=MUTE_D,
-                       cut=(("a", "d"), ("d", "a"), ("b", "c"), ("c", "b")), max_moves=15), 600_000))
     # ---- Multi-Paxos / Flexible Paxos ------------------------------------------------------------
     flexq = [(3, 2, 2)] if q else [(3, 2, 2), (3, 1, 3), (3, 3, 1), (4, 3, 2), (4, 2, 3)]
     kinds = [("multi", 3, None, None)] + [("flex", n, q1, q2) for n, q1, q2 in flexq]
@@ -165,6 +169,91 @@ def _run_world(job):
     }
 
 
+# ---------------------------------------------------------------------------
+# engine / network binding: the same liveness premise on the REAL Simulation + Network + NetworkLink
+# ---------------------------------------------------------------------------
+def _sim_binding(job):
+    """Single proposer / single leader on the real engine with constant per-link latencies (every
+    assignment of the latency menu to the links), nothing lost.  Validates the harness' delivery
+    model end to end and evaluates the liveness clause at the end of a 6 s run."""
+    import itertools
+
+    from mc.harness import Event, Instant, Simulation, run_guarded
+    from happysimulator.components.consensus.flexible_paxos import FlexiblePaxosNode
+    from happysimulator.components.consensus.multi_paxos import MultiPaxosNode
+    from happysimulator.components.consensus.paxos import PaxosNode
+    from happysimulator.components.network.link import NetworkLink
+    from happysimulator.components.network.network import Network
+    from happysimulator.distributions.constant import ConstantLatency
+    from props.c12_logpaxos import RecSM
+
+    name, menu_ms = job
+    t0 = time.time()
+    res = {"name": name, "cls": "sim", "kw": {"latency_menu_ms": list(menu_ms), "nodes": 3, "duration_s": 6},
+           "states": 0, "transitions": 0, "depth": 0, "exhaustive": True, "caps": [], "terminal": 0, "leaves": 0,
+           "nontrivial": 0, "outcomes": 0, "levels": [], "samples": [], "viol": [], "wall": 0.0}
+    outcomes = set()
+    pairs = [(0, 1), (0, 2), (1, 2)]
+    for kind in ("paxos", "multi", "flex"):
+        for lat in itertools.product(menu_ms, repeat=3):
+            for proposer in (0, 2):
+                net = Network(name="net")
+                if kind == "paxos":
+                    nodes = [PaxosNode(f"n{i}", net) for i in range(3)]
+                elif kind == "multi":
+                    nodes = [MultiPaxosNode(f"n{i}", net, state_machine=RecSM(), heartbeat_interval=1.0)
+                             for i in range(3)]
+                else:
+                    nodes = [FlexiblePaxosNode(f"n{i}", net, peers=[None, None], state_machine=RecSM(),
+                                               heartbeat_interval=1.0) for i in range(3)]
+                for nd in nodes:
+                    nd.set_peers(nodes)
+                for (i, j), ms in zip(pairs, lat):
+                    net.add_bidirectional_link(nodes[i], nodes[j],
+                                               NetworkLink(name=f"l{i}{j}", latency=ConstantLatency(ms / 1000.0)))
+                p = nodes[proposer]
+                if kind == "paxos":
+                    fut = p.propose("v")
+                    start = p.start_phase1
+                else:
+                    fut = p.submit("c1")
+                    start = p.start
+                sim = Simulation(start_time=Instant.Epoch, duration=6.0, entities=[net, *nodes])
+                sim.schedule(Event.once(time=Instant.from_seconds(0.01), event_type="Go", fn=lambda e, f=start: f()))
+                out = run_guarded(sim, max_events=5000, storm=500)
+                res["transitions"] += out["events"]
+                res["terminal"] += 1
+                if kind == "paxos":
+                    obs = tuple((nd.is_decided, nd.decided_value) for nd in nodes) + (fut.is_resolved,)
+                    ok = all(nd.is_decided and nd.decided_value == "v" for nd in nodes) and fut.is_resolved \
+                        and fut.value == "v"
+                    fp = "Paxos/liveness/single-proposer-not-decided-everywhere"
+                else:
+                    obs = tuple((nd.log.commit_index, tuple(nd._state_machine.applied), nd.is_leader) for nd in nodes)
+                    ok = all(nd._state_machine.applied == ["c1"] for nd in nodes)
+                    proto = "MultiPaxos" if kind == "multi" else "FlexiblePaxos"
+                    fp = f"{proto}/liveness/" + ("no-heartbeat-timer" if not any(nd.is_leader for nd in nodes)
+                                                 else "after-two-heartbeats")
+                outcomes.add(digest((kind, obs)))
+                if out["outcome"] != "done":
+                    ok, fp = False, f"{kind}/engine-horizon/{out['outcome']}"
+                if len(set(lat)) > 1:
+                    res["nontrivial"] += 1
+                case = {"driver": name, "world": "sim", "kind": kind, "latency_ms": list(lat), "proposer": proposer}
+                if len(res["samples"]) < 2:
+                    res["samples"].append({**case, "observed": obs})
+                if not ok and fp not in {v[0] for v in res["viol"]}:
+                    res["viol"].append((fp, f"real Simulation, fault-free network, link latencies {lat} ms, node n{proposer} "
+                                            f"proposes/leads: after 6 s nodes report {obs}", case))
+    res["states"] = res["outcomes"] = len(outcomes)
+    res["wall"] = time.time() - t0
+    return res
+
+
+def _dispatch(job):
+    return _sim_binding(job[1:]) if job[0] == "sim" else _run_world(job)
+
+
 def main(tier, seed, only=None):
     run = Run(PID, tier, seed, "model_checking",
               rule=("each driver is a world of real consensus objects explored breadth-first to exhaustion under its "
@@ -201,7 +290,9 @@ def main(tier, seed, only=None):
     # biggest first so the pool is balanced; VERIF_SEED only rotates the order among equals
     jobs = rotate(jobs, seed)
     jobs.sort(key=lambda j: -j[3])
-    results = pmap(_run_world, jobs)
+    if not only or "sim-binding" in only or "sim" in only:
+        jobs.append(("sim", "sim-binding", (1, 5, 20) if tier == "quick" else (1, 5, 20, 100)))
+    results = pmap(_dispatch, jobs)
     for res in sorted(results, key=lambda r: r["name"]):
         d = run.driver(res["name"], {"world": res["cls"], **res["kw"]})
         d.states = res["states"]
@@ -221,6 +312,13 @@ def main(tier, seed, only=None):
 
 def replay(data):
     rep = data["replay"]
+    if rep.get("world") == "sim":
+        print("sim-binding case", rep, "- re-running the driver's case list")
+        res = _sim_binding((rep["driver"], (1, 5, 20)))
+        hit = [v for v in res["viol"] if v[0] == data.get("fingerprint")]
+        for v in hit:
+            print("  !!", v[0], v[1])
+        return 1 if hit else 0
     kw = rep["params"]
 
     def thaw(x):
